@@ -3,6 +3,7 @@ package rules
 import (
 	"go/ast"
 	"go/token"
+	"go/types"
 	"strings"
 
 	"jsverif/internal/core"
@@ -11,11 +12,11 @@ import (
 // posTable: SetIndex arguments that are none of the two scanner idioms, with the reason the
 // index lies inside the text. key = function:argument
 var posTable = map[string]string{
-	"lexeme.NewError:lex.Begin()":                                                   "position of an existing lexeme: lexemes are created by the scanners from indexes inside the content (scanner idioms below); lexeme spans themselves are not decided here",
+	"lexeme.NewError:lex.Begin()": "position of an existing lexeme: lexemes are created by the scanners from indexes inside the content (scanner idioms below); lexeme spans themselves are not decided here",
 	"(*notations/jschema/checker.checkSchema).checkType$1:bytes.Index(jErr.Index()) + typ.Begin": "re-bases an index inside the type's own text into the root file the type was cut from (typ.Begin is the offset of that text in RootFile); AddType'd types have Begin 0 and their own file",
-	"(*notations/regex.RSchema).doCompile:bytes.Index(0)":                                      "reached only after the empty-content guard at the top of doCompile (content.Len() > 0), so index 0 exists",
-	"(*notations/regex.RSchema).newJSchemaError:bytes.Index(idx)":                             "both callers pass 0 or content.Len()-1 after the empty-content guard",
-	"(*rules/enum.scanner).validateValue:begin":                                               "Begin() of the literal lexeme on top of the stack: an index the scanner itself produced from index-1",
+	"(*notations/regex.RSchema).doCompile:bytes.Index(0)":                                        "reached only after the empty-content guard at the top of doCompile (content.Len() > 0), so index 0 exists",
+	"(*notations/regex.RSchema).newJSchemaError:bytes.Index(idx)":                                "both callers pass 0 or content.Len()-1 after the empty-content guard",
+	"(*rules/enum.scanner).validateValue:begin":                                                  "Begin() of the literal lexeme on top of the stack: an index the scanner itself produced from index-1",
 }
 
 // c16positioned: the index given to a diagnostic lies inside the text.
@@ -81,10 +82,30 @@ func c16positioned(c *core.Ctx) {
 			c.OKd(R, key, pos, what, "scanner idiom (a): the byte just read")
 		case arg == "s.dataSize - 1" && nextOK[pkgRel]:
 			// must be under a non-empty-stack condition or after a switch on the top of the stack
-			guarded := false
-			for _, a := range cs.Stack {
-				if ifs, ok := a.(*ast.IfStmt); ok && (strings.Contains(core.ExprStr(ifs.Cond), "stack.Len() != 0") || hasDisjunct(ifs.Cond, "s.slashPending") || hasDisjunct(ifs.Cond, "s.blockCommentOpen")) {
-					guarded = true // a non-empty lexeme stack / a pending slash: at least one byte was read
+			underGuard := func(stack []ast.Node) bool {
+				for _, a := range stack {
+					if ifs, ok := a.(*ast.IfStmt); ok && (strings.Contains(core.ExprStr(ifs.Cond), "stack.Len() != 0") || hasDisjunct(ifs.Cond, "s.slashPending") || hasDisjunct(ifs.Cond, "s.blockCommentOpen")) {
+						return true // a non-empty lexeme stack / a pending slash: at least one byte was read
+					}
+				}
+				return false
+			}
+			guarded := underGuard(cs.Stack)
+			if !guarded && cs.Decl != nil && cs.Decl.Name.Name != "Next" {
+				// a helper that builds the end-of-input error: every call of it must sit under the guard
+				if self, ok := cs.Pkg.TypesInfo.Defs[cs.Decl.Name].(*types.Func); ok {
+					sites, all := 0, true
+					for _, cs2 := range c.P.Calls() {
+						if core.Callee(cs2.Pkg, cs2.Call) == types.Object(self) {
+							sites++
+							if !underGuard(cs2.Stack) {
+								all = false
+							}
+						}
+					}
+					if sites > 0 && all {
+						guarded = true
+					}
 				}
 			}
 			if !guarded {
@@ -106,7 +127,7 @@ func c16positioned(c *core.Ctx) {
 				c.Bad(R, key, pos, what, "end-of-input position without the non-empty-stack guard: for an empty text dataSize-1 wraps around")
 			}
 		default:
-			if r, ok := posTable[key]; ok {
+			if r, ok := tableGet(posTable, key); ok {
 				c.Tabled(R, key, pos, what, r)
 			} else {
 				c.Bad(R, key, pos, what, "the index expression is neither `s.index - 1` in a scanner, `s.dataSize - 1` at end of input, nor a tabled form: the diagnostic may point outside the text (line and column 0, empty quoted line) or at the wrong byte")
